@@ -2224,3 +2224,228 @@ func E5JPEGColorSpace(c *core.Ctx, r *core.Report) {
 	r.Count("E5.jpeg-branches", 1)
 	r.Floor("E5.jpeg-branches", 1)
 }
+
+// E5StitchingArity: a stitching function has one bound fewer than functions and two encode values per function.
+func E5StitchingArity(c *core.Ctx, r *core.Report) {
+	r.Rule("E5.stitching-arity", "patternStopsFunction builds a PDF stitching function (FunctionType 3) for the colour stops of a gradient: k sub-functions need k−1 Bounds and 2k Encode values (ISO 32000-1 §7.10.4). The arrays are filled by appends spread over an optional leading constant piece, a loop over the stop pairs and an optional trailing constant piece; the counts are followed over every path through the function (if/else both ways, the loop body evaluated for its first and for a later iteration with the conditions on the loop variable decided, at least one iteration): at the return that builds the dictionary #Functions − #Bounds = 1 and #Encode = 2·#Functions on all of them. A trailing piece that adds a function without its bound gives a dictionary no reader accepts, and the gradient is not painted as the rasterizer paints it")
+	p := c.MustPkg("renderers/pdf")
+	info := p.TypesInfo
+	fd := core.MustFuncDecl(p, "patternStopsFunction")
+	r.Func("renderers/pdf.patternStopsFunction")
+	key := "renderers/pdf.patternStopsFunction|Functions, Bounds and Encode have matching lengths"
+	// the three arrays: values of the dictionary with FunctionType 3
+	var fsO, boundsO, encodeO types.Object
+	var dictPos token.Pos
+	ast.Inspect(fd.Body, func(m ast.Node) bool {
+		cl, ok := m.(*ast.CompositeLit)
+		if !ok {
+			return true
+		}
+		vals := map[string]ast.Expr{}
+		for _, el := range cl.Elts {
+			if kv, ok := el.(*ast.KeyValueExpr); ok {
+				if tv, ok := info.Types[kv.Key]; ok && tv.Value != nil && tv.Value.Kind() == constant.String {
+					vals[constant.StringVal(tv.Value)] = kv.Value
+				}
+			}
+		}
+		ft, ok := vals["FunctionType"]
+		if !ok {
+			return true
+		}
+		if v, ok := core.ConstInt(info, ft); !ok || v != 3 {
+			return true
+		}
+		obj := func(e ast.Expr) types.Object {
+			if id, ok := core.Unparen(e).(*ast.Ident); ok {
+				return core.ObjOf(info, id)
+			}
+			return nil
+		}
+		if vals["Functions"] != nil && vals["Bounds"] != nil && vals["Encode"] != nil {
+			fsO, boundsO, encodeO, dictPos = obj(vals["Functions"]), obj(vals["Bounds"]), obj(vals["Encode"]), cl.Pos()
+		}
+		return true
+	})
+	if fsO == nil || boundsO == nil || encodeO == nil {
+		r.Fail("E5.stitching-arity", key, c.Pos(fd.Pos()), "the FunctionType 3 dictionary with Functions, Bounds and Encode given by locals was not found")
+		return
+	}
+	type cnt struct{ f, b, e int }
+	type state map[cnt]bool
+	appended := func(st ast.Stmt) (cnt, bool) {
+		as, ok := st.(*ast.AssignStmt)
+		if !ok || len(as.Lhs) != 1 || len(as.Rhs) != 1 {
+			return cnt{}, false
+		}
+		id, ok := as.Lhs[0].(*ast.Ident)
+		call, ok2 := core.Unparen(as.Rhs[0]).(*ast.CallExpr)
+		if !ok || !ok2 || len(call.Args) < 2 || call.Ellipsis.IsValid() {
+			return cnt{}, false
+		}
+		if fn, ok := core.Unparen(call.Fun).(*ast.Ident); !ok || fn.Name != "append" {
+			return cnt{}, false
+		}
+		if a0, ok := core.Unparen(call.Args[0]).(*ast.Ident); !ok || core.ObjOf(info, a0) != core.ObjOf(info, id) {
+			return cnt{}, false
+		}
+		k := len(call.Args) - 1
+		switch core.ObjOf(info, id) {
+		case fsO:
+			return cnt{f: k}, true
+		case boundsO:
+			return cnt{b: k}, true
+		case encodeO:
+			return cnt{e: k}, true
+		}
+		return cnt{}, false
+	}
+	undecided := ""
+	var finals []cnt
+	var walk func(stmts []ast.Stmt, in state, loopVar types.Object, first bool) state
+	walk = func(stmts []ast.Stmt, in state, loopVar types.Object, first bool) state {
+		cur := in
+		for _, st := range stmts {
+			switch x := st.(type) {
+			case *ast.ReturnStmt:
+				isDict := false
+				for _, res := range x.Results {
+					ast.Inspect(res, func(k ast.Node) bool {
+						if cl, ok := k.(*ast.CompositeLit); ok && cl.Pos() == dictPos {
+							isDict = true
+						}
+						return true
+					})
+				}
+				if isDict {
+					for s := range cur {
+						finals = append(finals, s)
+					}
+				}
+				return state{}
+			case *ast.IfStmt:
+				env := func(e ast.Expr) tri {
+					be, ok := e.(*ast.BinaryExpr)
+					if !ok || loopVar == nil {
+						return tUnknown
+					}
+					id, ok := core.Unparen(be.X).(*ast.Ident)
+					other := be.Y
+					op := be.Op
+					if !ok || core.ObjOf(info, id) != loopVar {
+						id, ok = core.Unparen(be.Y).(*ast.Ident)
+						other = be.X
+						switch op {
+						case token.LSS:
+							op = token.GTR
+						case token.GTR:
+							op = token.LSS
+						case token.LEQ:
+							op = token.GEQ
+						case token.GEQ:
+							op = token.LEQ
+						}
+						if !ok || core.ObjOf(info, id) != loopVar {
+							return tUnknown
+						}
+					}
+					v, isC := core.ConstInt(info, other)
+					if !isC || v != 0 {
+						return tUnknown
+					}
+					// i is 0 in the first iteration and positive later
+					switch op {
+					case token.EQL, token.LEQ:
+						return triOf(first)
+					case token.NEQ, token.GTR:
+						return triOf(!first)
+					case token.GEQ:
+						return tTrue
+					case token.LSS:
+						return tFalse
+					}
+					return tUnknown
+				}
+				t := evalBool(info, x.Cond, env)
+				out := state{}
+				if t != tFalse {
+					for s := range walk(x.Body.List, cur, loopVar, first) {
+						out[s] = true
+					}
+				}
+				if t != tTrue {
+					switch el := x.Else.(type) {
+					case nil:
+						for s := range cur {
+							out[s] = true
+						}
+					case *ast.BlockStmt:
+						for s := range walk(el.List, cur, loopVar, first) {
+							out[s] = true
+						}
+					case *ast.IfStmt:
+						for s := range walk([]ast.Stmt{el}, cur, loopVar, first) {
+							out[s] = true
+						}
+					}
+				}
+				cur = out
+			case *ast.ForStmt:
+				var lv types.Object
+				if as, ok := x.Init.(*ast.AssignStmt); ok && len(as.Lhs) == 1 && len(as.Rhs) == 1 {
+					if v, ok := core.ConstInt(info, as.Rhs[0]); ok && v == 0 {
+						if id, ok := as.Lhs[0].(*ast.Ident); ok {
+							lv = core.ObjOf(info, id)
+						}
+					}
+				}
+				if lv == nil {
+					undecided = "a loop without a counter starting at 0"
+					return cur
+				}
+				later := walk(x.Body.List, state{cnt{}: true}, lv, false)
+				for s := range later {
+					if s.f-s.b != 0 || s.e != 2*s.f {
+						undecided = fmt.Sprintf("an iteration after the first adds %d function(s), %d bound(s) and %d encode value(s): the lengths drift apart with the number of stops", s.f, s.b, s.e)
+					}
+				}
+				cur = walk(x.Body.List, cur, lv, true)
+			case *ast.BlockStmt:
+				cur = walk(x.List, cur, loopVar, first)
+			case *ast.RangeStmt:
+				undecided = "a range loop fills the arrays (not followed)"
+			default:
+				if d, ok := appended(st); ok {
+					out := state{}
+					for s := range cur {
+						out[cnt{s.f + d.f, s.b + d.b, s.e + d.e}] = true
+					}
+					cur = out
+				}
+			}
+		}
+		return cur
+	}
+	walk(fd.Body.List, state{cnt{}: true}, nil, false)
+	switch {
+	case undecided != "":
+		r.Fail("E5.stitching-arity", key, c.Pos(fd.Pos()), undecided)
+	case len(finals) == 0:
+		r.Fail("E5.stitching-arity", key, c.Pos(fd.Pos()), "no path reaches the return of the stitching dictionary")
+	default:
+		bad := ""
+		for _, s := range finals {
+			// the loop's later iterations add equal numbers, so the difference is that of the counted path
+			if s.f-s.b != 1 || s.e != 2*s.f {
+				bad = fmt.Sprintf("on a path through the function the dictionary gets k functions, k−%d bounds and %+d encode values relative to 2k (counted: %d functions, %d bounds, %d encode values with one loop iteration)", s.f-s.b, s.e-2*s.f, s.f, s.b, s.e)
+			}
+		}
+		if bad != "" {
+			r.Fail("E5.stitching-arity", key, c.Pos(dictPos), bad+": k sub-functions need k−1 Bounds and 2k Encode values")
+		} else {
+			r.OK("E5.stitching-arity", key, c.Pos(dictPos), fmt.Sprintf("%d path(s)", len(finals)))
+		}
+	}
+	r.Count("E5.stitching-dicts", 1)
+	r.Floor("E5.stitching-dicts", 1)
+}
